@@ -16,7 +16,8 @@ theorem Usable.of_fields {P : Params} {h : Heap} {s s' : Sketch} (u : Usable P h
   obtain ⟨self', k', m', minK', nl', srt', n', ls', items', sz', view'⟩ := s'
   simp only at e1 e2 e3 e4 e5 e6 e7 e8 e9
   subst e1 e2 e3 e4 e5 e6 e7 e8 e9
-  exact ⟨⟨u.toInv.m_eq, u.toInv.self_cells, u.toInv.self_lt, u.toInv.view_ok, u.toInv.items_ok⟩, u.items, u.mm0, u.mm1, u.ret⟩
+  exact ⟨⟨u.toInv.m_eq, u.toInv.self_cells, u.toInv.self_lt, u.toInv.view_ok, u.toInv.items_ok⟩, u.items, u.mm0, u.mm1, u.ret,
+    u.wt, u.pw⟩
 
 /-- ownership bookkeeping from what was freed (`D`) and what was allocated and kept (`A`) -/
 theorem Owns.of_delta {h' : Heap} {ids0 own0 own' : List Nat} {n0 : Nat} (D A : Nat → Prop)
@@ -104,8 +105,9 @@ theorem Usable.build {P : Params} {h : Heap} {s : Sketch} (m_eq : s.m = P.defaul
     (hbview : s.view ≠ some b)
     (mm0 : s.n = 0 → stAt h s.self 0 = .raw ∧ stAt h s.self 1 = .raw)
     (mm1 : s.n ≠ 0 → (∃ v, stAt h s.self 0 = .live v) ∧ (∃ v, stAt h s.self 1 = .live v))
-    (ret : s.n ≠ 0 → s.levels.getD 0 0 < s.itemsSize) : Usable P h s := by
-  refine ⟨⟨m_eq, self_cells, self_lt, view_ok, ?_⟩, ⟨b, hb, il.live⟩, mm0, mm1, ret⟩
+    (ret : s.n ≠ 0 → s.levels.getD 0 0 < s.itemsSize) (wt : sumSampleWeights s.numLevels s.levels = s.n)
+    (pw : s.numLevels = 1 ∨ 2 ^ (s.numLevels - 1) ≤ s.n) : Usable P h s := by
+  refine ⟨⟨m_eq, self_cells, self_lt, view_ok, ?_⟩, ⟨b, hb, il.live⟩, mm0, mm1, ret, wt, pw⟩
   intro b' hb'
   rw [hb] at hb'; cases hb'
   exact ⟨lok, il.itemsAt, hblt, hbself, hbview⟩
@@ -169,6 +171,8 @@ theorem query_contract (P : Params) (n0 : Nat) (s : Sketch) (ids0 : List Nat) :
           · intro e; simp only; rw [ss.st, ss.st]; exact u.mm0 e
           · intro e; simp only; rw [ss.st, ss.st]; exact u.mm1 e
           · exact u.ret
+          · exact u.wt
+          · exact u.pw
         · rw [hid2, sb1.ids, hid, hnx1]; simp [or_comm]
         · rw [hnx1]
           simp only [mem_owned, hv, reduceCtorEq, or_false, Option.some.injEq, not_false_eq_true, and_true]
